@@ -55,10 +55,21 @@ static void on_sigabrt(int s) { (void) s; fi_on = 0; fi_flush_and_exit(78); }   
 extern void __sanitizer_set_death_callback(void (*)(void));
 
 /* ---- API call bracket --------------------------------------------------- */
-static unsigned r0_, h0_;
+/* kernel inotify watches of the loop: the "inotify wd:" lines of /proc/self/fdinfo/<inotify_fd> */
+static int kwatches(void) {
+  char p[64], line[256]; FILE* f; int n = 0, on = fi_on;
+  if (!loop_ok || L.inotify_fd < 0) return 0;
+  fi_on = 0;
+  snprintf(p, sizeof p, "/proc/self/fdinfo/%d", L.inotify_fd);
+  f = fopen(p, "r");
+  if (f) { while (fgets(line, sizeof line, f)) if (!strncmp(line, "inotify wd:", 11)) n++; fclose(f); }
+  fi_on = on;
+  return n;
+}
+static unsigned r0_, h0_; static int w0_;
 static void api_begin(const char* name) {
   fi_api = name;
-  if (loop_ok) { r0_ = L.active_reqs.count; h0_ = L.active_handles; }
+  if (loop_ok) { r0_ = L.active_reqs.count; h0_ = L.active_handles; w0_ = kwatches(); }
 }
 static int api_end(const char* name, int rc, int mode) {
   char sfx[64] = "";
@@ -67,6 +78,7 @@ static int api_end(const char* name, int rc, int mode) {
     int dr = (int) L.active_reqs.count - (int) r0_, dh = (int) L.active_handles - (int) h0_;
     if (dr) snprintf(sfx + strlen(sfx), 30, "!r%+d", dr);
     if (dh) snprintf(sfx + strlen(sfx), 30, "!h%+d", dh);
+    if (kwatches() != w0_) snprintf(sfx + strlen(sfx), 30, "!w%+d", kwatches() - w0_);
   }
   if (rc < 0) ev("%s=%s%s", name, uv_err_name(rc), sfx);
   else if (mode & 1) ev("%s=ok", name);
@@ -153,6 +165,7 @@ static void loop_end(void) {
     if (wd_fired) ev("WATCHDOG-teardown");
     uv_close((uv_handle_t*) &wd, NULL);
     run_nowait(5);
+    if (L.inotify_fd >= 0) ev("watches_end=%d", kwatches());
     ev("alive=%d", uv_loop_alive(&L) ? 1 : 0);
     ev("reqs=%u", L.active_reqs.count);
     api_begin("loop_close");
